@@ -41,6 +41,10 @@ OPS = [
     ("swap2", r"\((\w+(?:\.\d)?), (\w+(?:\.\d)?)\)(?=;| \{|\))", r"(\2, \1)"),
     ("unwrap_or0", r"\.overflowing_mul\(", ".overflowing_add("),
     ("len_cap", r"\.len\(\)", ".capacity()"),
+    # third family: a whole `if` block without else deleted; two adjacent statements exchanged
+    ("del_if", r"^([ \t]+)if [^\n{]*\{\n(?:\1[ \t]+[^\n]*\n){1,6}\1\}[ \t]*\n(?!\1else)", ""),
+    ("swap_stmt", r"^([ \t]+)((?!let |//|return|break|continue|\}|\{)[^\n]*;)[ \t]*\n\1((?!let |//|return|break|continue|\}|\{)[^\n]*;)[ \t]*$", r"\1\3\n\1\2"),
+    ("swap_let", r"^([ \t]+)(let [^\n]*;)[ \t]*\n\1((?!let |//|\}|\{)[^\n]*;)[ \t]*$", r"\1\3\n\1\2"),
     ("del_stmt", r"^(\s+)(?!let |//|return|break|continue|pub |fn |use |impl |#|\}|\{)([^\n]*;)\s*$", r"\1{ }"),
 ]
 
@@ -94,7 +98,7 @@ def mutants(files, ops=None):
         for name, rx, rep in OPS:
             if ops and name not in ops:
                 continue
-            flags = re.M if name == "del_stmt" else 0
+            flags = re.M if name in ("del_stmt", "del_if", "swap_stmt", "swap_let") else 0
             for m in re.finditer(rx, text, flags):
                 if m.start() >= cut or not ok[m.start()]:
                     continue
